@@ -166,7 +166,7 @@ def run(ctx):
     CTX = ctx
     names = sched.op_names(unsafe=True) + ["q.find", "q.str", "q.code", "q.is_eq", "q.forward"] * 3
     from ..common import run_systematic
-    from ..gen.templates import single_step_cases
+    from ..gen.templates import distinct_step_cases
 
     quick = ctx.tier == "quick"
     real_ops = [n for n in names if not n.startswith("q.")]
@@ -175,5 +175,5 @@ def run(ctx):
         for c in cases:
             yield {"prog": c["prog"], "steps": c["steps"]}
 
-    run_systematic(ctx, strip(single_step_cases(real_ops, None, params=(0, 1) if quick else (0, 1, 2, 5, 7), sites=4 if quick else 8, extra=[0])), guarded(ctx, check_case), keep_one_in=(lambda c: 1 if sched.OPS.get(c["steps"][0][0], {}).get("group") == "storage" else 8) if quick else 1, label="template-single-steps")
+    run_systematic(ctx, strip(distinct_step_cases(ctx.shard, ctx.nshards, real_ops, None, params=(0, 1) if quick else (0, 1, 2, 5, 7), extra=[0])), guarded(ctx, check_case), keep_one_in=(lambda c: 1 if sched.OPS.get(c["steps"][0][0], {}).get("group") == "storage" else 6) if quick else 1, label="template-single-steps", presharded=True)
     run_cases(ctx, case_strategy(8 if ctx.tier == "quick" else 16, names), guarded(ctx, check_case), ctx.budget(640, 50000))
